@@ -5,6 +5,7 @@
 From Coq Require Import List QArith Reals Qreals Lia Arith Bool ZArith.
 From NV Require Import Scalar.Ops Model.Common Model.Basis Model.Knots Model.KnotIns Model.InsertKnot Model.Split
   Proofs.BasisR Proofs.KnotsR Proofs.KnotInsR Proofs.SplitR Proofs.SplitBezier Run.Harness.
+From NV Require Import Proofs.Boehm Proofs.InsertKnotR Proofs.InsertDirR Proofs.SplitLocal Proofs.SplitCoincide Proofs.SplitCount Proofs.SplitSurf Proofs.SplitExamples.
 Import ListNotations.
 
 (* [G] splitting at a domain end is rejected: curve, surface u, surface v; all shapes, all tolerances *)
@@ -165,3 +166,160 @@ Example C07_decompose_step_hypotheses_satisfiable :
   | _ => False
   end.
 Proof. cbv zeta. repeat split; try (vm_compute; congruence); try (cbn; lia). Qed.
+
+(* ====================== COINCIDENCE OF THE PIECES, DECOMPOSITION COUNT (round 2, Proofs/Split{Local,Coincide,Count,Surf}.v) ====================== *)
+Open Scope R_scope.
+(* [G] locality at a knot of full multiplicity (spec level) *)
+Theorem C07_N_locality_full_multiplicity : forall (U : nat -> R) (m p : nat) (t : R),
+  (forall i, U i <= U (S i)) -> (forall j, (m < j <= m + p)%nat -> U j = t) -> U m <= t -> t <= U (m + p + 1)%nat ->
+  (forall u, u < t ->
+     (forall i, (m < i)%nat -> N U p i u = 0) /\
+     (forall V : nat -> R, (forall i, V i <= V (S i)) -> (forall j, (j <= m + p)%nat -> V j = U j) ->
+        (forall j, (m + p < j)%nat -> t <= V j) -> forall i, N U p i u = N V p i u)) /\
+  (forall u, t <= u ->
+     (forall i, (i < m)%nat -> N U p i u = 0) /\
+     (forall W : nat -> R, (forall i, W i <= W (S i)) -> (forall j, (m < j)%nat -> W j = U j) ->
+        (forall j, (j <= m)%nat -> W j <= t) -> forall i, (m <= i)%nat -> N U p i u = N W p i u)).
+Proof. exact N_locality_full_multiplicity. Qed.
+Print Assumptions C07_N_locality_full_multiplicity.
+
+(* [G] an interior split is never rejected.  split_geom_hyps tol c t :=
+     sortedR U /\ p < n /\ length U = n + p + 1 /\ U_p < t < U_n /\
+     (forall i, i < length U -> |t - U_i| <= tol -> U_i = t) /\ find_multiplicity tol t U <= p *)
+Theorem C07_split_curve_succeeds : forall tol (c : @curve R) t, split_geom_hyps tol c t ->
+  split_curve Rops tol c t = Ok (split_left tol c t, split_right tol c t).
+Proof. exact split_curve_succeeds. Qed.
+Print Assumptions C07_split_curve_succeeds.
+
+(* [G] split_pieces_coincide (split_ok_hyps = split_geom_hyps + all control points have dim coordinates):
+   any degree, t inside a span or on a knot of multiplicity s <= p, every coordinate *)
+Theorem C07_split_pieces_coincide : forall tol (c : @curve R) t dim, split_ok_hyps tol c t dim ->
+  exists c1 c2, split_curve Rops tol c t = Ok (c1, c2) /\ c_p c1 = c_p c /\ c_p c2 = c_p c /\
+    (forall cc x, (cc < dim)%nat -> x < t ->
+       curve_pt (c_p c1) (c_U c1) (c_P c1) cc ((x - knR (c_U c) 0) / (t - knR (c_U c) 0)) = curve_pt (c_p c) (c_U c) (c_P c) cc x) /\
+    (forall cc x, (cc < dim)%nat -> t <= x ->
+       curve_pt (c_p c2) (c_U c2) (c_P c2) cc ((x - t) / (knR (c_U c) (length (c_U c) - 1) - t)) = curve_pt (c_p c) (c_U c) (c_P c) cc x).
+Proof. exact split_pieces_coincide. Qed.
+Print Assumptions C07_split_pieces_coincide.
+
+(* [G] the same for clamped curves in the pieces' own parameters (sigma in [0,1) / [0,1]) *)
+Theorem C07_split_pieces_coincide_clamped : forall tol (c : @curve R) t dim, split_ok_hyps tol c t dim ->
+  knR (c_U c) 0 = knR (c_U c) (c_p c) -> knR (c_U c) (length (c_U c) - 1) = knR (c_U c) (length (c_P c)) ->
+  exists c1 c2, split_curve Rops tol c t = Ok (c1, c2) /\
+    (forall cc sigma, (cc < dim)%nat -> sigma < 1 ->
+       curve_pt (c_p c1) (c_U c1) (c_P c1) cc sigma =
+       curve_pt (c_p c) (c_U c) (c_P c) cc (knR (c_U c) (c_p c) + sigma * (t - knR (c_U c) (c_p c)))) /\
+    (forall cc sigma, (cc < dim)%nat -> 0 <= sigma ->
+       curve_pt (c_p c2) (c_U c2) (c_P c2) cc sigma =
+       curve_pt (c_p c) (c_U c) (c_P c) cc (t + sigma * (knR (c_U c) (length (c_P c)) - t))).
+Proof. exact split_pieces_coincide_clamped. Qed.
+Print Assumptions C07_split_pieces_coincide_clamped.
+
+(* [G] decompose_count = C07_decompose_count_full + (degree >= 1, interior multiplicities <= p, separating tolerance);
+   knots_separated tol U := 0 <= tol /\ forall i j < length U, |U_i - U_j| <= tol * max 1 (U_last - U_0) -> U_i = U_j
+   (tol = 0: always; geomdl: normalised knot vectors whose distinct knots differ by more than the tolerance) *)
+Theorem C07_decompose_count : forall tol (c : @curve R) l ds,
+  sortedR (c_U c) -> length (c_U c) = S (c_p c + length (c_P c)) ->
+  is_bezier_kv (c_p c) (firstn (S (c_p c)) (c_U c) ++ skipn (length (c_U c) - S (c_p c)) (c_U c)) ->
+  NoDup ds -> (forall x, In x ds <-> In x (interior_knots (c_p c) (c_U c))) ->
+  (1 <= c_p c)%nat -> (forall i, (1 <= i < length (c_P c))%nat -> (knR (c_U c) i < knR (c_U c) (i + c_p c))%R) ->
+  knots_separated tol (c_U c) ->
+  decompose_curve Rops tol c = Ok l ->
+  length l = S (length ds) /\
+  Forall (fun x => c_p x = c_p c /\ is_bezier_kv (c_p c) (c_U x) /\ length (c_P x) = S (c_p c)) l.
+Proof. exact decompose_count. Qed.
+Print Assumptions C07_decompose_count.
+
+(* the statement without those three hypotheses is false for the model (witness: degree 0, knots [0;1/2;1]) *)
+Theorem C07_decompose_count_full_refuted : ~ C07_decompose_count_full.
+Proof. exact decompose_count_unrestricted_refuted. Qed.
+Print Assumptions C07_decompose_count_full_refuted.
+
+(* [G] the decomposition is never rejected / never runs out of fuel under the invariant *)
+Theorem C07_decompose_curve_succeeds : forall tol (c : @curve R), dec_valid tol c -> exists l, decompose_curve Rops tol c = Ok l.
+Proof. exact decompose_curve_succeeds. Qed.
+Print Assumptions C07_decompose_curve_succeeds.
+(* dec_valid tol c follows from the hypotheses of C07_decompose_count: dec_valid_of_ends *)
+
+(* [G] pieces in order, each coinciding with the original on its interval:
+   breakpoints c = U_0 :: dedup (interior knots) ++ [U_last]  (strictly increasing),
+   piece j on [b_j, b_{j+1}) under the affine map of the piece's own domain (first .. last knot of the piece) *)
+Theorem C07_decompose_pieces_coincide : forall tol (c : @curve R) l dim,
+  sortedR (c_U c) -> length (c_U c) = S (c_p c + length (c_P c)) ->
+  is_bezier_kv (c_p c) (firstn (S (c_p c)) (c_U c) ++ skipn (length (c_U c) - S (c_p c)) (c_U c)) ->
+  (1 <= c_p c)%nat -> (forall i, (1 <= i < length (c_P c))%nat -> (knR (c_U c) i < knR (c_U c) (i + c_p c))%R) ->
+  knots_separated tol (c_U c) ->
+  (forall i, (i < length (c_P c))%nat -> length (getp (c_P c) i) = dim) ->
+  decompose_curve Rops tol c = Ok l ->
+  length (breakpoints c) = S (length l) /\ pieces_coincide_on c l dim.
+Proof. exact decompose_pieces_coincide. Qed.
+Print Assumptions C07_decompose_pieces_coincide.
+
+(* [G] surfaces, both directions (dir_split_hyps = split_geom_hyps on (degree, knot vector, size) of the split direction;
+   dir_keep_hyps q V nv := sortedR V /\ length V = S (q + nv) /\ V_0 < V_last for the other direction, whose knot vector
+   is normalised by the setter of the new surface as well) *)
+Theorem C07_split_surface_u_coincide :
+  forall (tol : R) (g : InsertKnot.surf) (t : R) (dim : nat),
+       dir_split_hyps tol (InsertKnot.s_pu g) (InsertKnot.s_Uu g) (InsertKnot.s_su g) t ->
+       dir_keep_hyps (InsertKnot.s_pv g) (InsertKnot.s_Uv g) (InsertKnot.s_sv g) ->
+       (forall i : nat,
+        (i < InsertKnot.s_sv g * InsertKnot.s_su g)%nat -> length (KnotIns.getp (InsertKnot.s_P g) i) = dim) ->
+       exists g1 g2 : InsertKnot.surf,
+         split_surface_u Rops tol g t = Ok (g1, g2) /\
+         (InsertKnot.s_pu g1 = InsertKnot.s_pu g /\
+          InsertKnot.s_pv g1 = InsertKnot.s_pv g /\
+          InsertKnot.s_pu g2 = InsertKnot.s_pu g /\
+          InsertKnot.s_pv g2 = InsertKnot.s_pv g /\
+          InsertKnot.s_su g1 = ssize_left tol (InsertKnot.s_pu g) (InsertKnot.s_Uu g) (InsertKnot.s_su g) t /\
+          InsertKnot.s_su g2 = ssize_right tol (InsertKnot.s_pu g) (InsertKnot.s_Uu g) (InsertKnot.s_su g) t /\
+          InsertKnot.s_sv g1 = InsertKnot.s_sv g /\ InsertKnot.s_sv g2 = InsertKnot.s_sv g) /\
+         (forall (c : nat) (x y : R),
+          (c < dim)%nat ->
+          x < t ->
+          InsertDirR.surf_pt g1 c ((x - kn Rops (InsertKnot.s_Uu g) 0) / (t - kn Rops (InsertKnot.s_Uu g) 0))
+            ((y - kn Rops (InsertKnot.s_Uv g) 0) /
+             (kn Rops (InsertKnot.s_Uv g) (InsertKnot.s_pv g + InsertKnot.s_sv g) - kn Rops (InsertKnot.s_Uv g) 0)) =
+          InsertDirR.surf_pt g c x y) /\
+         (forall (c : nat) (x y : R),
+          (c < dim)%nat ->
+          t <= x ->
+          InsertDirR.surf_pt g2 c ((x - t) / (kn Rops (InsertKnot.s_Uu g) (InsertKnot.s_su g + InsertKnot.s_pu g) - t))
+            ((y - kn Rops (InsertKnot.s_Uv g) 0) /
+             (kn Rops (InsertKnot.s_Uv g) (InsertKnot.s_pv g + InsertKnot.s_sv g) - kn Rops (InsertKnot.s_Uv g) 0)) =
+          InsertDirR.surf_pt g c x y).
+Proof. exact split_surface_u_coincide. Qed.
+Print Assumptions C07_split_surface_u_coincide.
+
+Theorem C07_split_surface_v_coincide :
+  forall (tol : R) (g : InsertKnot.surf) (t : R) (dim : nat),
+       dir_split_hyps tol (InsertKnot.s_pv g) (InsertKnot.s_Uv g) (InsertKnot.s_sv g) t ->
+       dir_keep_hyps (InsertKnot.s_pu g) (InsertKnot.s_Uu g) (InsertKnot.s_su g) ->
+       (0 < InsertKnot.s_su g)%nat ->
+       (forall i : nat,
+        (i < InsertKnot.s_sv g * InsertKnot.s_su g)%nat -> length (KnotIns.getp (InsertKnot.s_P g) i) = dim) ->
+       exists g1 g2 : InsertKnot.surf,
+         split_surface_v Rops tol g t = Ok (g1, g2) /\
+         (InsertKnot.s_pu g1 = InsertKnot.s_pu g /\
+          InsertKnot.s_pv g1 = InsertKnot.s_pv g /\
+          InsertKnot.s_pu g2 = InsertKnot.s_pu g /\
+          InsertKnot.s_pv g2 = InsertKnot.s_pv g /\
+          InsertKnot.s_sv g1 = ssize_left tol (InsertKnot.s_pv g) (InsertKnot.s_Uv g) (InsertKnot.s_sv g) t /\
+          InsertKnot.s_sv g2 = ssize_right tol (InsertKnot.s_pv g) (InsertKnot.s_Uv g) (InsertKnot.s_sv g) t /\
+          InsertKnot.s_su g1 = InsertKnot.s_su g /\ InsertKnot.s_su g2 = InsertKnot.s_su g) /\
+         (forall (c : nat) (x y : R),
+          (c < dim)%nat ->
+          y < t ->
+          InsertDirR.surf_pt g1 c
+            ((x - kn Rops (InsertKnot.s_Uu g) 0) /
+             (kn Rops (InsertKnot.s_Uu g) (InsertKnot.s_pu g + InsertKnot.s_su g) - kn Rops (InsertKnot.s_Uu g) 0))
+            ((y - kn Rops (InsertKnot.s_Uv g) 0) / (t - kn Rops (InsertKnot.s_Uv g) 0)) = InsertDirR.surf_pt g c x y) /\
+         (forall (c : nat) (x y : R),
+          (c < dim)%nat ->
+          t <= y ->
+          InsertDirR.surf_pt g2 c
+            ((x - kn Rops (InsertKnot.s_Uu g) 0) /
+             (kn Rops (InsertKnot.s_Uu g) (InsertKnot.s_pu g + InsertKnot.s_su g) - kn Rops (InsertKnot.s_Uu g) 0))
+            ((y - t) / (kn Rops (InsertKnot.s_Uv g) (InsertKnot.s_sv g + InsertKnot.s_pv g) - t)) =
+          InsertDirR.surf_pt g c x y).
+Proof. exact split_surface_v_coincide. Qed.
+Print Assumptions C07_split_surface_v_coincide.
